@@ -217,6 +217,67 @@ def roundtrip(model, info, art):
     return ("confirmed" if problems else "contradicted"), "; ".join(problems[:12]) or "documents delivered intact, in order, filtered by prefix"
 
 
+class _FakeZmq:
+    PUB, SUB, SUBSCRIBE = 1, 2, 6
+
+    class Context:
+        def socket(self, kind):
+            return _FakeZmq.Socket()
+
+        def destroy(self):
+            pass
+
+    class Socket(_Sock):
+        def __init__(self):
+            super().__init__([])
+
+        def connect(self, url):
+            pass
+
+        def close(self):
+            pass
+
+
+def constructed(model, info, art):
+    """objects built by the real constructors behave as configured: serializer / deserializer / strict flag reach __call__ / _poll"""
+    problems = []
+    good = b"p start " + pickle.dumps({"uid": "u"})
+    for strict in (False, True, None):
+        kw = {} if strict is None else {"strict": strict}
+        d = RemoteDispatcher(("localhost", 1), prefix=b"p", zmq=_FakeZmq, zmq_asyncio=_FakeZmq, deserializer=lambda b: ("mine", pickle.loads(b)), **kw)
+        real_loop = d.loop
+        try:
+            d._socket, d.loop = _Sock([b"p start notapickle", good]), _Loop()
+            try:
+                asyncio.run(d._poll())
+                end = "returned"
+            except _Done:
+                end = "consumed all frames"
+            except Bluesky0MQDecodeError:
+                end = "Bluesky0MQDecodeError"
+            except Exception as e:           # noqa
+                end = f"{type(e).__name__}: {e}"
+            calls = [tuple(c[-2:]) for c in d.loop.calls]
+            want = ("Bluesky0MQDecodeError", []) if strict else ("consumed all frames", [(DocumentNames.start, ("mine", {"uid": "u"}))])
+            if (end, calls) != want:
+                problems.append(f"RemoteDispatcher(strict={strict}, deserializer=mine): {end}, delivered {calls!r}; expected {want!r}")
+        finally:
+            real_loop.close()
+    p = Publisher(("localhost", 1), prefix=b"p", zmq=_FakeZmq, serializer=lambda doc: b"<" + repr(sorted(doc.items())).encode() + b">")
+    p("start", {"uid": "u"})
+    if p._socket.sent != [b"p start <[('uid', 'u')]>"]:
+        problems.append(f"Publisher(serializer=mine) sent {p._socket.sent!r}")
+    return ("confirmed" if problems else "contradicted"), "; ".join(problems) or "constructed objects use the given serializer / deserializer / strict flag"
+
+
+def _short(call):
+    try:
+        n, d = call
+        return (getattr(n, "name", n), d.get("by") if isinstance(d, dict) else d)
+    except Exception:      # noqa
+        return call
+
+
 def history(model, info, art):
     """two publishers interleave their documents on one proxy; every dispatcher (no prefix, A's prefix, B's prefix, a third one)
     must deliver exactly the documents of its publisher, in arrival order"""
@@ -227,19 +288,22 @@ def history(model, info, art):
         pairs.insert(0, (pa, pb))
     third = model_bytes(model, "disp_prefix")
     for pa, pb in pairs:
-        fa = publish(pa, [(n, dict(d, by="A")) for n, d in DOCS])
-        fb = publish(pb, [(n, dict(d, by="B")) for n, d in DOCS])
+        da, db = [(n, dict(d, by="A")) for n, d in DOCS], [(n, dict(d, by="B")) for n, d in DOCS]
+        fa, fb = publish(pa, da), publish(pb, db)
+        if len(fa) != len(da) or len(fb) != len(db):
+            problems.append(f"publishers A={pa!r} B={pb!r}: {len(fa)} / {len(fb)} frames sent for {len(da)} / {len(db)} documents")
+            continue
         for pattern in ("ABABABABAB", "AABBBABAAB", "BBBBBAAAAA", "BABAABABAB"):
-            ia, ib, frames, who = iter(fa), iter(fb), [], []
+            ia, ib, frames, sent = iter(zip(fa, da)), iter(zip(fb, db)), [], []
             for c in pattern:
-                frames.append(next(ia if c == "A" else ib))
-                who.append(c)
-            sent = [(c, DocumentNames[f.split(b" ", 2)[1].decode()], pickle.loads(f.split(b" ", 2)[2])) for c, f in zip(who, frames)]
+                f, (n, doc) = next(ia if c == "A" else ib)
+                frames.append(f)
+                sent.append((c, DocumentNames[n], doc))
             for dp in [b"", pa, pb] + ([third] if third else []) + other_prefixes(pa)[:6]:
                 for strict in (False, True):
                     end, calls, left = poll(frames, prefix=dp, strict=strict)
                     want = [(n, d) for c, n, d in sent if not dp or dp == (pa if c == "A" else pb)]
                     if end != "consumed all frames" or [tuple(c) for c in calls] != want:
                         problems.append(f"publishers A={pa!r} B={pb!r} interleaved {pattern}, dispatcher prefix {dp!r}, strict={strict}: {end}, "
-                                        f"delivered {[(n.name, d.get('by')) for n, d in calls]!r}, expected {[(n.name, d.get('by')) for n, d in want]!r}")
+                                        f"delivered {[_short(c) for c in calls]!r}, expected {[_short(c) for c in want]!r}")
     return ("confirmed" if problems else "contradicted"), "; ".join(problems[:12]) or "each dispatcher delivered exactly its publisher's documents, in order"
